@@ -15,6 +15,28 @@ CHECKS = {
             "Trusted: TLC/SANY, CPython datetime, the token projection of harness/lib.py (uses the tree's own tokenizer). Domain excludes year-last '-' dates whose year spells a UTC offset.",
             "DESIGN.md 4 C07"),
 }
+CHECKS.update({
+    "C01": ("model_checking",
+            "TLA+ machine of the absolute parser model-checked with TLC against the oracle Trunc(d, t, precision) over 14 renderings; real calls (English selected and autodetected, epoch numbers with suffixes, signs and zones) and probe events validated by TLC trace spec T_C01.tla",
+            "TLC enumerates every date of a year grid x boundary clock times x microsecond shapes x 14 renderings with all 27 PREFER_* combinations folded into the state and checks machine = Trunc in every state; the same renderings as real strings (every written fraction length 1..6, zero-padded small years, month ends, leap days) and epoch numbers (boundaries 10^9, 2^31, 10^10-1, ms/us suffixes, negative numbers, 10 zones) are judged by TLC against the oracle, and every logged run of the real absolute parser must be a behaviour of the machine.",
+            "Trusted: TLC, CPython datetime, pytz for the zone offset at an instant, harness token projection. TIMEZONE='local' is not varied.",
+            "DESIGN.md 4 C01"),
+    "C08": ("model_checking",
+            "TLA+ machines of the absolute parser and of parse_with_formats (Formats.tla) model-checked with TLC against the oracle Complete(parts, preferences, reference); real calls validated by TLC trace spec T_C08.tla",
+            "TLC checks machine = Complete for every (y, m) of the constants (thorough: all years 1..9999, i.e. exhaustive for the last-day rule) x 9 preference pairs x reference days incl. 29-31 and Feb 29, for month-year, year-only and full-date inputs, through both parsers; real month-year / year-only / full-date strings in three spellings are judged by TLC against the same oracle (custom-format 'current' preferences against the bracketed system clock); probe events are refinement-checked.",
+            "Trusted: TLC, CPython datetime, harness projection; the system clock is read before and after each custom-format call and cases spanning midnight are skipped.",
+            "DESIGN.md 4 C08"),
+    "C09": ("model_checking",
+            "TLA+ machine of _correct_for_time_frame/_correct_for_month/_correct_for_day model-checked with TLC against the oracle of O_C09.tla (nearest occurrence on the demanded side, named parts kept); known-finding signature proved exact on the model; real calls validated by T_C09.tla",
+            "TLC checks on every generated state (boundary or all days of the base years x 4 times x 7 weekdays, 12 months, day-month pairs, clock grid, two-digit years x 3 preferences) that the faithful machine satisfies the property or shows exactly the known-finding value (SignatureExact) and that the repaired design satisfies it everywhere; real calls for all five forms (several spellings, 8 zones for the time-only form) are judged by TLC; a failure is a KNOWN-FINDING only if the observed value equals the month-overridden demanded value.",
+            "Trusted: TLC, CPython datetime, harness projection. Non-UTC zones for the time-only form: the direction clause alarms only if wrong under both readings of the naive reference. Two-digit-year forms exclude Feb 29.",
+            "DESIGN.md 4 C09"),
+    "C10": ("model_checking",
+            "relational invariants (strict/REQUIRE_PARTS outcomes vs non-strict outcome, two reference times) model-checked with TLC on the TLA+ machine; the same relations checked by TLC (T_C10.tla) on five real runs of every input",
+            "TLC enumerates all presence subsets of {day, month, year, weekday, time} x field shapes x 8 REQUIRE_PARTS subsets x 3 orders x reference-time pairs and checks StrictFilters, ClockFree, RequireFilters, RequireClockFree and (for unambiguous spellings) that a strict result needs all parts; every real input (generated partial dates in English and in the other languages' own names, ambiguous numeric forms, custom-format and timestamp inputs) is run five times and TLC checks the relations between the real outcomes; probe events are refinement-checked.",
+            "Trusted: TLC, harness projection. Domain: PREFER_DATES_FROM default. 'States all parts' is demanded of the absolute parser on unambiguous spellings only; custom-format/timestamp parsers: relational clauses only.",
+            "DESIGN.md 4 C10"),
+})
 NOT_YET = {}
 
 def main():
